@@ -1,14 +1,14 @@
 #!/bin/bash
 # Verify a sub-agent's seeded change independently: usage seedverify.sh <worktree> <ID>
-# 1) patch applies to a fresh worktree of /repo HEAD  2) full test suite passes with it  3) demo fails with it, passes without it
+# 1) patch applies to a fresh worktree of /repo HEAD  2) demo passes on the original, fails with the change  3) full suite passes with it
 set -u
 WT=$1; ID=$2
 V=/tmp/verify_$ID
-rm -rf $V; git -C /repo worktree add -q --detach $V HEAD || exit 9
+rm -rf $V; git -C /repo worktree prune; git -C /repo worktree add -q --detach $V HEAD || exit 9
 cp $WT/patch.diff $V/patch.diff; cp $WT/demo_$ID.py $V/demo_$ID.py
 cd $V
-echo "--- demo on ORIGINAL:"; PYTHONPATH=$V/src timeout 600 /venv/bin/python demo_$ID.py > /tmp/verify_${ID}_orig.log 2>&1; echo "exit=$?"; tail -2 /tmp/verify_${ID}_orig.log
-git apply patch.diff || { echo "PATCH DOES NOT APPLY"; git -C /repo worktree remove --force $V; exit 8; }
-echo "--- demo WITH change:"; PYTHONPATH=$V/src timeout 600 /venv/bin/python demo_$ID.py > /tmp/verify_${ID}_mut.log 2>&1; echo "exit=$?"; tail -3 /tmp/verify_${ID}_mut.log
-echo "--- test suite WITH change:"; PYTHONPATH=$V/src /venv/bin/python -m pytest -q -p no:cacheprovider --timeout=900 tests 2>&1 | tail -1
+PYTHONPATH=$V/src timeout 900 /venv/bin/python demo_$ID.py > /tmp/verify_${ID}_orig.log 2>&1; echo "demo on ORIGINAL exit=$? :: $(tail -1 /tmp/verify_${ID}_orig.log | cut -c1-160)"
+git apply patch.diff || { echo "PATCH DOES NOT APPLY"; cd /; git -C /repo worktree remove --force $V; exit 8; }
+PYTHONPATH=$V/src timeout 900 /venv/bin/python demo_$ID.py > /tmp/verify_${ID}_mut.log 2>&1; echo "demo WITH change exit=$? :: $(tail -1 /tmp/verify_${ID}_mut.log | cut -c1-160)"
+echo "suite WITH change (private netns): $(/verif/tools/netns_run.sh env PYTHONPATH=$V/src /venv/bin/python -m pytest -q -p no:cacheprovider --timeout=900 tests 2>&1 | tail -1)"
 cd /; git -C /repo worktree remove --force $V
